@@ -69,7 +69,7 @@ def tie(ctx, cases=None):
     for f in sorted(os.listdir(CORPUS)):
         if f.endswith(".case") and f != "calibration.case":
             ts.append(ctx.tie("spscb-corpus-" + f[:-5], [h, "run", os.path.join(CORPUS, f), "--atomics"], [drv]))
-    n = cases or (3000 if ctx.quick else 60000)
+    n = cases or (3000 if ctx.quick else 15000)
     ts.append(ctx.tie("spscb-atomic-steps",
                       [h, "gen", "--seed", str(ctx.seed), "--cases", str(n), "--mode", "conc", "--flavours", "spsc", "--atomics"]
                       + ([] if ctx.quick else ["--tier", "thorough"]),
